@@ -143,6 +143,14 @@ func main() {
 		}
 		sort.Strings(rep.Packages)
 		pd.Run(c)
+		if f := os.Getenv("GMV_OBLS"); f != "" {
+			// debug: print the obligations whose rule / construct contains the given text
+			for _, o := range rep.Obls {
+				if strings.Contains(o.Rule+" "+o.Construct, f) {
+					fmt.Printf("OBL: %s [%s] %s: %s (%s)\n", o.Status, o.Rule, o.Construct, o.Detail, o.Pos)
+				}
+			}
+		}
 		if *tier == "thorough" {
 			runThorough(c, pd, *repo)
 		}
